@@ -22,7 +22,7 @@ MANIFEST_INFO = {
     "engine": "E",
     "design_ref": "DESIGN.md section 5, C07",
     "technique": "bounded-exhaustive enumeration: every matcher expression tree up to a depth bound x every value of its (extended, non-ASCII/control-character) domain for totality of str()/describe()/get_details()/str(MismatchError) in both verbosity modes with and without annotation, assertThat/assert_that/expectThat driven for every pair; every str/bytes over a 9-symbol alphabet up to a length bound x 3 multiline modes for the text_repr/literal_eval round trip",
-    "level_text": "All expression trees of depth <= 2 over the C06 leaf set (quick: at most 1500 per type and level) are applied to every value of their domain, extended with control characters, quotes, backslashes, astral and non-UTF-8 bytes: str(matcher) must be text for every matcher; for every mismatching pair describe() must return str, get_details() a dict of Content, and str(MismatchError) must not raise for verbose in {False, True} with and without an Annotate message; assertThat and assert_that must raise MismatchError exactly for the mismatching pairs, expectThat must never raise and the test must fail after the rest of the body and tearDown ran (for the leaf matchers also when expectThat is used in setUp before/after the up-call, in tearDown before/after the up-call or in a cleanup). text_repr is checked on all 66k (quick) / 597k (thorough) strings and all ASCII byte strings over {a ' \" \\ LF CR e-acute NUL U+1F600} up to length 5 / 6.",
+    "level_text": "All expression trees of depth <= 2 over the C06 leaf set (quick: at most 1500 per type and level) are applied to every value of their domain, extended with control characters, quotes, backslashes, astral and non-UTF-8 bytes: str(matcher) must be text for every matcher; for every mismatching pair describe() must return str, get_details() a dict of Content, and str(MismatchError) must not raise for verbose in {False, True} with and without an Annotate message; assertThat and assert_that must raise MismatchError exactly for the mismatching pairs, expectThat must never raise and the test must fail after the rest of the body and tearDown ran (for the leaf matchers also when expectThat is used in setUp before/after the up-call, in tearDown before/after the up-call or in a cleanup; those sites also under SynchronousDeferredRunTest and both AsynchronousDeferredRunTest variants on the virtual reactor). text_repr is checked on all 66k (quick) / 597k (thorough) strings and all ASCII byte strings over {a ' \" \\ LF CR e-acute NUL U+1F600} up to length 5 / 6.",
     "level_note": "Totality only: whether a pair mismatches is taken from the implementation's own verdict (C06 decides verdicts); the text_repr alphabet holds one member of every character class its escaping logic branches on.",
 }
 
@@ -157,6 +157,7 @@ class _ExpectingAt(testtools.TestCase):
             self.skipTest("setUp skips after the expectation")
 
     def test_x(self):
+        self._expect("test")
         self._log.append("test")
 
     def tearDown(self):
@@ -190,6 +191,59 @@ def check_expect_sites(e, v, res):
         want = ["addFailure"] if mismatching else (["addSkip"] if skipping else ["addSuccess"])
         if outs != want:
             problems.append(("expectThat-site", "expectThat(%r, %s) in %s with mismatch=%r gave outcomes %r" % (v, e.name, site, mismatching, outs)))
+    return problems
+
+
+def check_expect_runners(res):
+    """expectThat at every site under the Deferred-aware runners too (one matching and one
+    mismatching expectation per site; which matcher it is does not matter here)."""
+    from testtools.matchers import Equals
+    from testtools.twistedsupport import AsynchronousDeferredRunTest, AsynchronousDeferredRunTestForBrokenTwisted, SynchronousDeferredRunTest
+
+    from vt.explore import vreactor
+    from vt.explore.chooser import Chooser
+
+    class _E:
+        def __init__(self, m):
+            self.name = "Equals(%d)" % m
+            self._m = m
+
+        def make(self):
+            return Equals(self._m)
+
+    problems = []
+    reactor = vreactor.get_reactor()
+    runners = [
+        ("SynchronousDeferredRunTest", lambda: SynchronousDeferredRunTest),
+        ("AsynchronousDeferredRunTest", lambda: AsynchronousDeferredRunTest.make_factory(reactor=reactor, timeout=100.0)),
+        ("AsynchronousDeferredRunTestForBrokenTwisted", lambda: AsynchronousDeferredRunTestForBrokenTwisted.make_factory(reactor=reactor, timeout=100.0)),
+    ]
+    for rname, factory in runners:
+        for site in EXPECT_SITES + ("test",):
+            for expected in (1, 2):
+                mismatching = expected != 1
+                case = _ExpectingAt("test_x", runTest=factory())
+                log = []
+                case._spec, case._site, case._log = (1, _E(expected)), site, log
+                result = rec.Ext()
+                if reactor.dirty():
+                    reactor.scrub()
+                reactor.arm(Chooser(()), max_interrupts=0, ties=False)
+                try:
+                    case.run(result)
+                except BaseException as ex:
+                    problems.append(("expectThat-runner", "%s: run() of a test using expectThat in %s raised %s: %s" % (rname, site, type(ex).__name__, ex)))
+                    continue
+                finally:
+                    reactor.disarm()
+                    reactor.scrub()
+                res.evaluations += 1
+                outs = [x[0] for x in result.log if x[0] in rec.OUTCOMES]
+                skipping = site.endswith("skip")
+                want = ["addFailure"] if mismatching else (["addSkip"] if skipping else ["addSuccess"])
+                if outs != want:
+                    problems.append(("expectThat-runner", "%s: expectThat(1, Equals(%d)) in %s gave outcomes %r, expected %r" % (rname, expected, site, outs, want)))
+    vreactor.discard_reactor()
     return problems
 
 
@@ -315,6 +369,9 @@ def run_shard(shard, tier, seed):
                             if nm in e.name and ("NotImplementedError" in msg or "AttributeError" in msg):
                                 fp = "C07/matcher-str/filesystem-matchers-without-str"
                     res.violation(fp, msg, {"expr": e.name, "value": repr(v)})
+        if shard == 0:
+            for clause, msg in check_expect_runners(res):
+                res.violation("C07/%s" % clause, msg, {"expect_runners": msg})
         for clause, msg in check_text_repr(res, tier, shard, NSHARDS):
             res.violation("C07/%s" % clause, msg, {"text_repr": msg})
         if mine:
@@ -336,6 +393,10 @@ def meta(tier):
 
 
 def replay(data):
+    if "expect_runners" in data:
+        res = ShardResult()
+        p = check_expect_runners(res)
+        return (not p), repr(p[:6])
     sc = X.Scratch(tempfile.mkdtemp(prefix="vt-c07-"))
     try:
         if "text_repr" in data:
